@@ -22,6 +22,7 @@ REPORT = C.VERIF / "lean" / ".lake" / "gen_kernels_report.json"
 
 PTYPES = ["sersic", "doublesersic", "sersic_exp", "sersic_pointsource", "pointsource", "exp", "dev"]
 PROGRAMS = {"generate_prior"}
+NO_FLOAT_TIE = {"losses"}
 
 
 def _u(rng, lo, hi):
@@ -174,7 +175,7 @@ def tie(ctx, names, per_kernel=None):
     rng = ctx.rng("genk")
     cases = []
     for name in names:
-        if name not in kernels:
+        if name not in kernels or name in NO_FLOAT_TIE:
             continue
         for i in range(per_kernel):
             cases.append((name, gen_args(name, rng, i)))
@@ -259,6 +260,7 @@ MODULE = {
     "restrict_func": "Proofs.GenK.Restrict",
     "cash_loss_factor": "Proofs.GenK.Cash",
     "pseudo_huber_loss_factor": "Proofs.GenK.Huber",
+    "losses": "Proofs.GenK.Losses",
 }
 THEOREMS = {
     "render_sersic_2d": [_NS + "gen_sersic2d_eq"],
@@ -272,4 +274,12 @@ THEOREMS = {
     "restrict_func": [_NS + "gen_restrict_eq"],
     "cash_loss_factor": [_NS + "gen_cash_eq"],
     "pseudo_huber_loss_factor": [_NS + "gen_huber_eq"],
+    # all ten loss programs (loss.py): per-pixel term, latent sites, site structure; tied to the real traces through the
+    # model (C07's correspondence compares the model with real traces, these theorems equate the model with the translation)
+    "losses": [_NS + t for t in [
+        "gen_loss_gaussian_eq", "gen_loss_cash_eq", "gen_loss_w_frac_eq", "gen_loss_w_sys_eq", "gen_loss_student_t_eq",
+        "gen_loss_student_t_free_sys_eq", "gen_loss_huber_eq", "gen_loss_mixture_eq", "gen_loss_mixture_w_sys_eq",
+        "gen_loss_mixture_w_frac_eq", "gen_sites_gaussian", "gen_sites_cash", "gen_sites_student_t", "gen_sites_huber",
+        "gen_sites_w_frac", "gen_sites_w_sys", "gen_sites_student_t_free_sys", "gen_sites_mixture", "gen_sites_mixture_w_sys",
+        "gen_sites_mixture_w_frac", "gen_loss_meta", "gen_loss_site_names"]],
 }
